@@ -1,0 +1,7 @@
+//go:build !verif
+
+package proxy
+
+// verifYield marks a point where the verification harness (build tag "verif")
+// can interpose an operation; without the tag it is an empty inlined function.
+func verifYield(string) {}
